@@ -2867,10 +2867,12 @@ impl Context {
                 self.get_ctxdata().next_state_offset = Some(skeleton.total_size());
                 let (retv, _t, states) = self.eval_expr(*expr);
 
+                // The feed cell is read at the function's first state offset (the cells of the
+                // body follow it), so it comes first in the published layout as well.
                 (
                     Arc::new(Value::State(retv)),
                     ty,
-                    [states, vec![skeleton]].concat(),
+                    [vec![skeleton], states].concat(),
                 )
             }
             Expr::Let(pat, body, then) => {
